@@ -75,9 +75,11 @@ def gen_desc(r):
                          {"name": "trks", "ret": "Iterable[Track]", "cb": g("jettrks")},
                          {"name": "subs", "ret": "Iterable[SubTrack]"},
                          {"name": "leps", "ret": "Iterable[Lepton]"}]},
+            {"name": "JetList", "base": "Iterable[Jet]", "methods": []},
+            {"name": "GoodJets", "base": "JetList", "methods": []},      # plain subclass: iterable through the inherited base
             {"name": "Event", "cb": g("evcls"),
              "methods": [{"name": "Jets", "ret": "Iterable[Jet]", "cb": g("evjets")}, {"name": "met", "ret": ret("float")},
-                         {"name": "Muons", "ret": "Iterable[Muon]"}, {"name": "LeadLep", "ret": "Lepton"},
+                         {"name": "Muons", "ret": "Iterable[Muon]"}, {"name": "GoodJets", "ret": "GoodJets"}, {"name": "LeadLep", "ret": "Lepton"},
                          {"name": "LeadMu", "ret": "Muon"}, {"name": "Parts", "ret": "Iterable[Particle]"}]},
         ],
         "functions": [{"name": "myf", "params": [("a", None)], "ret": "float", "proc": g("fproc")},
@@ -96,7 +98,7 @@ METHODS = {  # class -> method -> (method cb placement, result kind)
     "SubTrack": {"pt": ("trackpt", "float"), "eta": (None, "float"), "x": ("subx", "float")},
     "Jet": {"pt": ("jetpt", "float"), "trks": ("jettrks", "iter:Track"), "subs": (None, "iter:SubTrack"),
             "leps": (None, "iter:Lepton")},
-    "Event": {"Jets": ("evjets", "iter:Jet"), "met": (None, "float"), "Muons": (None, "iter:Muon"),
+    "Event": {"Jets": ("evjets", "iter:Jet"), "met": (None, "float"), "Muons": (None, "iter:Muon"), "GoodJets": (None, "iter:Jet"),
               "Parts": (None, "iter:Particle"), "LeadLep": (None, "obj:Lepton"), "LeadMu": (None, "obj:Muon")},
     "Particle": {"pt": ("partpt", "float"), "eta": (None, "float"), "phi": (None, "float")},
     "Lepton": {"pt": ("partpt", "float"), "eta": ("lepeta", "float"), "phi": (None, "float"), "iso": ("lepiso", "float")},
@@ -216,7 +218,7 @@ class Q:
         """an Iterable-valued expression over v : cls -> (written, expected, element class)"""
         r = self.r
         if cls == "Event":
-            w, x, res = self.mcall("Event", N(v), N(v), r.choice(["Jets", "Jets", "Muons", "Parts"]), ev)
+            w, x, res = self.mcall("Event", N(v), N(v), r.choice(["Jets", "Jets", "Muons", "Parts", "GoodJets"]), ev)
         else:
             w, x, res = self.mcall("Jet", N(v), N(v), r.choice(["trks", "subs", "leps"]), ev)
         return w, x, res.split(":")[1]
